@@ -84,6 +84,15 @@ func genC20(verifSeed int64, tier string, idx int) *core.Scenario {
 		sp.Pre = append(sp.Pre, Step{K: "CrashedStore", D: 1, ID: 1 + r.Intn(2), Dmg: fmt.Sprint(r.Intn(1 << 20))})
 	}
 	sp.Steps = []Step{{K: "Store", D: 0, ID: 0, NoClobber: r.Intn(4) == 0, Via: []string{"fs", "rw"}[r.Intn(2)]}}
+	if r.Intn(3) == 0 && !huge {
+		// the store in flight also meets an I/O error (on its k-th system call, once or persisting): whatever path it
+		// takes then is crashed at every point like any other
+		k := r.Intn(4) // mostly early: the calls that decide which path the store takes
+		if r.Intn(4) == 0 {
+			k = r.Intn(10)
+		}
+		sp.Steps[0].Fault = &FaultSpec{K: k, Kind: faultKinds[r.Intn(len(faultKinds))], Sticky: r.Intn(3) == 0}
+	}
 	if r.Intn(2) == 0 && !huge {
 		for i := 0; i < 4; i++ {
 			sp.WriteSplit = append(sp.WriteSplit, []int{0, 1, 5, 33, 200}[r.Intn(5)])
@@ -228,6 +237,9 @@ func execC20(sc *core.Scenario) *core.Result {
 	runStore := func(d *simos.Disk, cp *simos.CrashPoint) (verifsim.Result, error, string) {
 		d.ResetPlan()
 		d.WriteSplit = sp.WriteSplit
+		if st.Fault != nil {
+			d.Faults = []simos.Fault{{Event: st.Fault.K, Kind: st.Fault.Kind, Arg: st.Fault.Arg, Sticky: st.Fault.Sticky}}
+		}
 		d.Crash = cp
 		d.Killer = verifsim.Kill
 		simos.Mount(d)
